@@ -125,7 +125,7 @@ def run(chk):
     progs += [gen_prog.Gen(rng).program().text for _ in range(40 if thorough else 6)]
     progs += [hierarchy_program(rng) for _ in range(150 if thorough else 40)]
     progs += generic_union_programs()
-    K, P = (12, 6) if thorough else (4, 3)
+    K, P = (8, 4) if thorough else (4, 3)
     ids = []
     for i, t in enumerate(progs):
         for k in range(K):
@@ -155,6 +155,37 @@ def run(chk):
                                   case={"kind": "prog", "annotate": a, "text": t}, expected=o[0][:1500], actual=o[1][:1500])
             elif next(iter(outs)).startswith("ok"):
                 distinct.add(t)
+    # ---- earlier runs leave state on DISK: the same project written into a fresh directory and into one that already
+    # holds the (longer / shorter / different) outputs of an earlier run gives the same bytes
+    import c13 as _c13
+    disk = []
+    for k in range(12 if thorough else 5):
+        files = _c13.project(rng, 900 + k)
+        outs = [r[:-6] + ".py" for r, _ in files]
+        longer = "".join("earlier_%d = (%d,\n" % (i, i) for i in range(300))
+        disk.append(("d%d_fresh" % k, files, ()))
+        disk.append(("d%d_longer" % k, files, tuple((o, longer) for o in outs)))
+        disk.append(("d%d_shorter" % k, files, tuple((o, "x = 1\n") for o in outs)))
+        disk.append(("d%d_same_length" % k, files, None))
+    dres = chk.harness("proj", [(cid, _c13.payload(files, pre)) for cid, files, pre in disk if pre is not None], parallel=8)
+    fresh = {}
+    n_disk = 0
+    for cid, files, pre in disk:
+        if pre is None:
+            continue
+        verdict, msgs, tree = _c13.parse_result(dres.get(cid, "MISSING"))
+        k = cid.split("_")[0]
+        outs = {r[:-6] + ".py": tree.get(r[:-6] + ".py") for r, _ in files}
+        if cid.endswith("_fresh"):
+            fresh[k] = (verdict, outs)
+            continue
+        n_disk += 1
+        if k in fresh and (verdict, outs) != fresh[k] and len(chk.violations) < 5:
+            diff = [o for o in outs if outs[o] != fresh[k][1].get(o)]
+            chk.violation("input", "the emitted bytes depend on what an earlier run left in the output directory (%s): %s differ from the run into a fresh directory" % (cid.split("_", 1)[1], diff),
+                          case={"kind": "proj", "files": files, "pre": [list(p) for p in pre]}, expected=str(fresh[k][1].get(diff[0]) if diff else fresh[k][0])[:800],
+                          actual=str(outs.get(diff[0]) if diff else verdict)[:800])
+    chk.cov["earlier_runs_on_disk"] = {"projects": len(fresh), "runs_into_populated_directories": n_disk}
     chk.sample({"class": classes[0][0], "model_order": mod.get("k0") if mod else None})
     chk.cov["oracle"] = {"spec": "byte-identical result for the same input: repeated in one process (fresh hash seeds per map), after arbitrary other workloads, in several processes, single-threaded and 8 at a time",
                          "programs": len(progs), "repetitions_per_program": K * P, "processes": P, "comparisons": n_cmp}
